@@ -38,6 +38,9 @@ def main():
         rc, o = sh(['/venv/bin/python', demo, wt], timeout=120)
         out['demo_clean'] = rc
         rc, o = sh(['git', '-C', wt, 'apply', os.path.join(d, 'patch.diff')])
+        if rc != 0:      # the tree moved on since the change was made (later fix: commits): try a three-way merge
+            rc, o = sh(['git', '-C', wt, 'apply', '--3way', os.path.join(d, 'patch.diff')])
+            out['applied_3way'] = rc == 0
         out['applies'] = rc == 0
         if rc != 0:
             out['apply_err'] = o[-300:]
@@ -62,7 +65,9 @@ def main():
         if keep and out['tests_green'] and out['demo_mutant'] == 1 and out['demo_clean'] == 0:
             dst = os.path.join(VERIF, 'seeded', keep)
             os.makedirs(dst, exist_ok=True)
-            shutil.copy(os.path.join(d, 'patch.diff'), dst)
+            # the change as a plain patch against the /repo HEAD it was confirmed on (re-based if later fix: commits moved the lines)
+            rc2, rebased = sh(['git', '-C', wt, 'diff'])
+            open(os.path.join(dst, 'patch.diff'), 'w').write(rebased if rc2 == 0 and rebased.strip() else open(os.path.join(d, 'patch.diff')).read())
             shutil.copy(demo, dst)
             meta['confirmed'] = {'tests': out['tests'], 'demo_exit_with_change': out['demo_mutant'], 'demo_exit_without_change': out['demo_clean'],
                                  'ran': 'tools/eval_mutant.py: scratch worktree of /repo HEAD, git apply, pytest, demo.py, ./check %s --tier quick with DESPER_REPO=<worktree>' % prop,
